@@ -160,7 +160,9 @@ def _torch_lm_chunk(cases):
         def __init__(self, layers):
             super().__init__()
             self.embedding = torch.nn.Embedding(len(CH) + 1, HID)
-            self.lstm = torch.nn.LSTM(HID, HID, num_layers=layers, batch_first=True)
+            # with dropout between the layers and in front of the output layer, as trained LSTM language models have: the module
+            # arrives in training mode (every freshly built or un-pickled module does) and is NOT switched to eval() here
+            self.lstm = torch.nn.LSTM(HID, HID, num_layers=layers, batch_first=True, dropout=0.5 if layers > 1 else 0.0)
             self.layers = layers
 
         def forward(self, xs, hs):
@@ -172,10 +174,11 @@ def _torch_lm_chunk(cases):
     class Out(torch.nn.Module):
         def __init__(self):
             super().__init__()
+            self.dropout = torch.nn.Dropout(0.5)
             self.projection = torch.nn.Linear(HID, len(CH) + 1)
 
         def forward(self, hs):
-            return torch.nn.functional.log_softmax(2.0 * self.projection(hs), dim=-1)
+            return torch.nn.functional.log_softmax(2.0 * self.projection(self.dropout(hs)), dim=-1)
 
     class Lm(torch.nn.Module):
         def __init__(self, layers):
@@ -188,6 +191,8 @@ def _torch_lm_chunk(cases):
             self._unused_prefix_len = 1
 
     def own_score(lm, text):
+        import copy
+        lm = copy.deepcopy(lm).eval()            # the model's own (inference) score
         with torch.no_grad():
             h = lm.model.init_hidden(1)
             _, h = lm.model(torch.tensor([[0]]), h)
